@@ -209,6 +209,14 @@ func (e *SpecEnv) object(o types.Object) SV {
 		// package-level variable: model as a constant address in the heap
 		if x.Parent() == x.Pkg().Scope() {
 			addr := e.h.globalAddr(x)
+			// a variable only its package's initialisation assigns is read from the entry state (as the code does)
+			if e.ft != nil && e.ft.init != nil {
+				if sp := e.w.prog.ImportedPackage(x.Pkg().Path()); sp != nil {
+					if g, ok := sp.Members[x.Name()].(*ssa.Global); ok && e.w.writeOnce(g) {
+						return SV{T: e.h.readAt(e.ft.init, addr, x.Type()), Ty: x.Type()}
+					}
+				}
+			}
 			return SV{Addr: addr, Ty: x.Type()}
 		}
 	}
